@@ -228,7 +228,7 @@ retry:
 // Idioms exercises everyday concurrency idioms the instrumenter must get right: a range
 // over a channel with the per-iteration copy `j := j`, timers created inside select
 // headers, a caller that can only proceed through a timeout, a spin on an atomic with an
-// empty loop body, clock and sleep used through function values. It returns 10*k.
+// empty loop body, clock and sleep used through function values. It returns 14*k.
 var (
 	nowFn   = time.Now
 	sleepFn = time.Sleep
@@ -356,5 +356,41 @@ func Idioms(k int) int {
 	if gens != 2 {
 		total = -1000
 	}
+	// a concrete value sent on a channel of interface type; a go statement whose arguments
+	// hold a timer; a lock reached through an expression with an atomic load in it
+	errc := make(chan error, 1)
+	errc <- &idiomErr{k}
+	if e, ok := (<-errc).(*idiomErr); ok {
+		total += e.k
+	}
+	anyc := make(chan any, 1)
+	select {
+	case anyc <- k:
+	default:
+	}
+	if v, ok := (<-anyc).(int); ok {
+		total += v
+	}
+	waitc := make(chan int)
+	go idiomWait(time.After(time.Millisecond), waitc, k)
+	total += <-waitc
+	var shards [2]struct {
+		mu sync.Mutex
+		n  int
+	}
+	var next atomic.Int64
+	shards[next.Load()%2].mu.Lock()
+	shards[next.Load()%2].n += k
+	total += shards[0].n
+	shards[next.Load()%2].mu.Unlock()
 	return total
+}
+
+type idiomErr struct{ k int }
+
+func (e *idiomErr) Error() string { return "idiom" }
+
+func idiomWait(t <-chan time.Time, out chan<- int, k int) {
+	<-t
+	out <- k
 }
